@@ -271,14 +271,33 @@ z3::sort fpSort(Type* t)
     if (t->isHalfTy()) return z3::sort(*C, Z3_mk_fpa_sort_half(*C));
     unsupported("symbolic floating point of this width");
 }
+std::unordered_map<int, int>* fp_of_term = nullptr; // term-table index of an IEEE bit pattern -> index of the FP-sorted term it encodes
+std::vector<z3::expr>*        fp_terms   = nullptr;
 z3::expr toFP(const Val& v, Type* t)
 {
     g_has_fp = g_fp_terms = true;
+    if (v.isS() && fp_of_term)
+    {
+        auto it = fp_of_term->find(v.t);
+        if (it != fp_of_term->end()) return (*fp_terms)[it->second];
+    }
     return z3::expr(*C, Z3_mk_fpa_to_fp_bv(*C, E(v), fpSort(t)));
 }
 Val fromFP(const z3::expr& f)
 {
-    return VS(z3::expr(*C, Z3_mk_fpa_to_ieee_bv(*C, f)));
+    Val r = VS(z3::expr(*C, Z3_mk_fpa_to_ieee_bv(*C, f)));
+    if (r.isS())
+    {
+        // chained operations use the FP-sorted term directly (no to_ieee_bv / to_fp round trip in the formula)
+        if (!fp_of_term)
+        {
+            fp_of_term = new std::unordered_map<int, int>;
+            fp_terms   = new std::vector<z3::expr>;
+        }
+        fp_terms->push_back(f);
+        (*fp_of_term)[r.t] = (int)fp_terms->size() - 1;
+    }
+    return r;
 }
 z3::expr RM(int mode) // 0 RNE, 1 RTN (floor), 2 RTP (ceil), 3 RTZ, 4 RNA
 {
@@ -447,6 +466,15 @@ Val fcmp(unsigned pred, const Val& a, const Val& b, Type* t)
     return VC(1, r);
 }
 
+uint64_t concretize(const Val& v, const char* what);
+bool     fp2int_eager = true;
+// integers derived from symbolic floating point are typically sizes / indices / positions: they are made concrete at once by
+// forking over their feasible values, so that the floating-point constraints are solved once per value and not in every later query
+Val fp2int(const Val& v)
+{
+    if (!fp2int_eager || !v.isS()) return v;
+    return VC(v.w, concretize(v, "integer converted from symbolic floating point"));
+}
 Val castv(unsigned opc, const Val& v, Type* from, Type* to)
 {
     if (v.isA())
@@ -498,7 +526,7 @@ Val castv(unsigned opc, const Val& v, Type* from, Type* to)
         if (v.isS() && symfp_ok(from))
         {
             z3::expr f = toFP(v, from);
-            return VS(z3::expr(*C, opc == Instruction::FPToSI ? Z3_mk_fpa_to_sbv(*C, RM(3), f, tw) : Z3_mk_fpa_to_ubv(*C, RM(3), f, tw)));
+            return fp2int(VS(z3::expr(*C, opc == Instruction::FPToSI ? Z3_mk_fpa_to_sbv(*C, RM(3), f, tw) : Z3_mk_fpa_to_ubv(*C, RM(3), f, tw))));
         }
         APFloat f = toF(v, from);
         APSInt  r(tw, opc == Instruction::FPToUI);
@@ -621,6 +649,18 @@ uint64_t concretize(const Val& v, const char* what)
     }
 }
 
+// freed heap blocks (see the free() intercept)
+std::map<uint64_t, uint64_t>* quarantine       = nullptr;
+uint64_t                      quarantine_bytes = 0;
+inline void check_freed(uint64_t a)
+{
+    if (quarantine->empty()) return;
+    auto it = quarantine->upper_bound(a);
+    if (it == quarantine->begin()) return;
+    --it;
+    if (a < it->first + it->second) label("memory: access to a freed heap block (reads 0xDD poison)")->checked++;
+}
+
 // ---------------------------------------------------------------------------------------------------------------
 // typed memory access
 void  store_val(uint64_t a, Type* t, const Val& v);
@@ -631,6 +671,7 @@ Val   load_val(uint64_t a, Type* t)
         unsigned w  = bitsOf(t);
         unsigned nb = (unsigned)DL->getTypeStoreSize(t);
         if (a < 4096) finish(K_CRASH, "null pointer dereference (load)");
+        check_freed(a);
         Val r = load_bytes(a, nb);
         if (8 * nb != w) r = r.isC() ? VA(r.c.trunc(w)) : VS(E(r).extract(w - 1, 0));
         return r;
@@ -660,6 +701,7 @@ void store_val(uint64_t a, Type* t, const Val& v)
     {
         unsigned nb = (unsigned)DL->getTypeStoreSize(t);
         if (a < 4096) finish(K_CRASH, "null pointer dereference (store)");
+        check_freed(a);
         if (v.k == Val::U)
         {
             return; // store of undef: leave memory as is
